@@ -50,12 +50,44 @@ def same_tree(a: Any, b: Any, tol: float) -> str | None:
     return None
 
 
+def scalar_angle_operator(rng: Any, ctx: Ctx) -> tuple[Any, Any]:
+    from furax.operators.hwp import HWPOperator
+    from furax.operators.polarizers import LinearPolarizerOperator
+    from furax.operators.qu_rotations import QURotationOperator
+    gen.begin_case(rng)
+    cls = gen.pick(rng, gen.STOKES[1:])
+    shape = gen.pick(rng, [(3,), (2, 3)])
+    dt = gen.case_dtype(rng)
+    s = cls.structure_for(shape, dt)
+    a = float(rng.uniform(-3, 3))
+    angle = gen.pick(rng, [a, np.float64(a), np.float32(a), np.deg2rad(np.float64(a * 10)), int(a)])
+    which = gen.pick(rng, ['rot', 'rot.T', 'hwp', 'pol'])
+    if which == 'rot':
+        op = QURotationOperator(angle, s)
+    elif which == 'rot.T':
+        op = QURotationOperator(angle, s).T
+    elif which == 'hwp':
+        op = HWPOperator.create(shape, dt, cls.stokes, angles=angle)
+    else:
+        op = LinearPolarizerOperator.create(shape, dt, cls.stokes, angles=angle)
+    LOG.count('C18.scalar-angle', type(angle).__name__)
+    return s, op
+
+
 def case(rng: Any, ctx: Ctx, index: int) -> None:
+    if index % 10 == 9:
+        s, op = scalar_angle_operator(rng, ctx)
+        # a float32 (or Python) scalar angle limits the accuracy to float32 whatever the data dtype
+        return compare_modes(rng, ctx, s, op, min_tol=1e-6)
     s, op = rand_operator(rng, ctx, atoms=0.6, lazy_inverse=bool(rng.integers(5) == 0), index=index)
+    compare_modes(rng, ctx, s, op)
+
+
+def compare_modes(rng: Any, ctx: Ctx, s: Any, op: Any, min_tol: float = 0.0) -> None:
     names = dense.class_names(op)
     top = type(op).__name__
     x = gen.rand_input(rng, s)
-    tol = max(dense.tol_for(op), 1e-6 if any(np.dtype(l.dtype).itemsize < 8 for l in dense.leaves(s)) else 1e-12)
+    tol = max(dense.tol_for(op), 1e-6 if any(np.dtype(l.dtype).itemsize < 8 for l in dense.leaves(s)) else 1e-12, min_tol)
     with jax.checking_leaks():
         y = op.mv(x)
     nleaves = len(jax.tree.leaves(op))
